@@ -317,11 +317,11 @@ static Res runOp(const Case& cs, const std::string& op, Db* db)
     pushNewColumns(r, d, nc0);
     delete ng; delete m; delete d;
   }
-  else if (op == "vario")
+  else if (op == "vario" || op == "vario_cov")
   {
     VarioParam* vp = VarioParam::createOmniDirection(NLAG, LAGW);
     Db* d = db->clone();
-    Vario* vr = Vario::computeFromDb(*vp, d, ECalcVario::VARIOGRAM);
+    Vario* vr = Vario::computeFromDb(*vp, d, op == "vario" ? ECalcVario::VARIOGRAM : ECalcVario::COVARIANCE);
     if (vr == nullptr) r.st = "err";
     else
     {
@@ -334,22 +334,6 @@ static Res runOp(const Case& cs, const std::string& op, Db* db)
             r.v.push_back(vr->getGg(0, iv, jv, l));
           }
       delete vr;
-    }
-    // other calculations sharing the pair loops: covariance, and the by-sample algorithm
-    for (int alt = 0; alt < 2; alt++)
-    {
-      Db* d2 = db->clone();
-      Vario* v2 = (alt == 0) ? Vario::computeFromDb(*vp, d2, ECalcVario::COVARIANCE)
-                             : Vario::computeFromDb(*vp, d2, ECalcVario::VARIOGRAM, true);
-      for (int iv = 0; iv < cs.nvar; iv++)
-        for (int jv = 0; jv <= iv; jv++)
-          for (int l = 0; l < NLAG; l++)
-          {
-            r.v.push_back(v2 == nullptr ? TEST : v2->getSw(0, iv, jv, l));
-            r.v.push_back(v2 == nullptr ? TEST : v2->getHh(0, iv, jv, l));
-            r.v.push_back(v2 == nullptr ? TEST : v2->getGg(0, iv, jv, l));
-          }
-      delete v2; delete d2;
     }
     delete d; delete vp;
   }
